@@ -26,6 +26,23 @@ class ImageSurface(Surface):
             aperture=aperture
         )
 
+    @classmethod
+    def _from_dict(cls, data):
+        """Rebuild an image surface from its dictionary representation
+        (its constructor takes no post medium, stop flag, coating, ...).
+
+        Args:
+            data (dict): The dictionary representation of the surface.
+
+        Returns:
+            ImageSurface: The image surface.
+        """
+        geometry = BaseGeometry.from_dict(data['geometry'])
+        material_pre = BaseMaterial.from_dict(data['material_pre'])
+        aperture = BaseAperture.from_dict(data['aperture']) \
+            if data['aperture'] else None
+        return cls(geometry, material_pre, aperture)
+
     def _trace_paraxial(self, rays: ParaxialRays):
         """
         Traces paraxial rays through the surface.
